@@ -165,4 +165,85 @@ theorem search_fuel_suffices_aux (g : Csr) (s : Nat) (ind : List Int) (h : ind.g
   simp only [List.length_cons, List.length_nil]
   omega
 
+/-! ### `_update_internal_graph` -/
+
+/-- body of the change loop -/
+def chBody : PStmt := blockP [.ifStatusAttr (blockP [.ifObjClosed (blockP [.write0]) (blockP [.write1])])]
+
+theorem chBody_step (s : Sim) (st : PSt) (k : Nat) :
+    execP s chBody { st with cur := k } =
+      { st with cur := k, data := writeLink s.ndx st.data k (openVal (s.status k)) } := by
+  unfold chBody openVal
+  simp only [blockP, execP]
+  by_cases h : s.status k = 0
+  · simp only [h, if_true]
+  · simp only [h, if_false]
+
+theorem ch_fold (s : Sim) (ks : List Nat) (st : PSt) :
+    (ks.foldl (fun st k => execP s chBody { st with cur := k }) st).data =
+      ks.foldl (fun d k => writeLink s.ndx d k (openVal (s.status k))) st.data ∧
+    (ks.foldl (fun st k => execP s chBody { st with cur := k }) st).reset = st.reset := by
+  induction ks generalizing st with
+  | nil => exact ⟨rfl, rfl⟩
+  | cons k ks ih =>
+    rw [List.foldl_cons, List.foldl_cons, chBody_step]
+    exact ih _
+
+def llBody : PStmt := blockP [.ifLinkNotClosed (blockP [.write1])]
+
+theorem ll_fold (s : Sim) (ls : List Nat) (st : PSt) :
+    (ls.foldl (fun st l => execP s llBody { st with cur := l }) st).data = setOpenLinks s.ndx s.status st.data ls ∧
+    (ls.foldl (fun st l => execP s llBody { st with cur := l }) st).reset = st.reset := by
+  unfold setOpenLinks
+  induction ls generalizing st with
+  | nil => exact ⟨rfl, rfl⟩
+  | cons l ls ih =>
+    rw [List.foldl_cons, List.foldl_cons]
+    have e : execP s llBody { st with cur := l } =
+        { st with cur := l, data := if s.status l ≠ 0 then writeLink s.ndx st.data l 1 else st.data } := by
+      unfold llBody
+      simp only [blockP, execP]
+      by_cases h : s.status l = 0
+      · simp only [h, ne_eq, not_true_eq_false, if_false]
+      · simp only [h, ne_eq, not_false_eq_true, if_true]
+    rw [e]
+    exact ih _
+
+def muBody : PStmt := blockP [.firstLink, .write0, .forLinkList llBody]
+
+theorem mu_step (s : Sim) (st : PSt) (e : (Nat × Nat) × List Nat) (hne : e.2 ≠ []) :
+    (execP s muBody { st with lst := e.2 }).data = multiStep s.ndx s.status st.data e ∧
+    (execP s muBody { st with lst := e.2 }).reset = st.reset := by
+  unfold muBody multiStep
+  cases h : e.2 with
+  | nil => exact absurd h hne
+  | cons f tl =>
+    simp only [blockP, execP, List.headD_cons]
+    have := ll_fold s (f :: tl) { data := writeLink s.ndx st.data f 0, cur := f, lst := f :: tl, reset := st.reset }
+    exact this
+
+theorem mu_fold (s : Sim) (es : List ((Nat × Nat) × List Nat)) (st : PSt) (hne : ∀ e ∈ es, e.2 ≠ []) :
+    (es.foldl (fun st e => execP s muBody { st with lst := e.2 }) st).data = es.foldl (multiStep s.ndx s.status) st.data ∧
+    (es.foldl (fun st e => execP s muBody { st with lst := e.2 }) st).reset = st.reset := by
+  induction es generalizing st with
+  | nil => exact ⟨rfl, rfl⟩
+  | cons e es ih =>
+    rw [List.foldl_cons, List.foldl_cons]
+    obtain ⟨a, b⟩ := mu_step s st e (hne e List.mem_cons_self)
+    obtain ⟨c, d⟩ := ih (execP s muBody { st with lst := e.2 }) (fun x hx => hne x (List.mem_cons_of_mem _ hx))
+    exact ⟨by rw [c, a], by rw [d, b]⟩
+
+/-- **the program text of `_update_internal_graph` means `updateGraph`** (lists of parallel links are never empty: `multiOk`) -/
+theorem execP_ref (s : Sim) (cur : Nat) (lst : List Nat) (hne : ∀ e ∈ s.multi, e.2 ≠ []) :
+    applyP s (execP s refUpdate { data := s.g.data, cur := cur, lst := lst, reset := false }) = updateGraph s := by
+  have e : refUpdate = blockP [.forChanges chBody, .forMulti muBody, .resetReference] := rfl
+  rw [e]
+  simp only [blockP, execP]
+  obtain ⟨a, b⟩ := ch_fold s s.changed { data := s.g.data, cur := cur, lst := lst, reset := false }
+  obtain ⟨c, d⟩ := mu_fold s s.multi (s.changed.foldl (fun st k => execP s chBody { st with cur := k })
+    { data := s.g.data, cur := cur, lst := lst, reset := false }) hne
+  unfold applyP updateGraph
+  simp only [if_true]
+  rw [c, a]
+
 end Wntr.Isolation.Prog
